@@ -16,6 +16,7 @@ package http
 import (
 	"bytes"
 	"context"
+	"io"
 	"io/ioutil"
 	"math/rand"
 	"net"
@@ -138,12 +139,16 @@ func (h *Handler) ServeHTTP(response http.ResponseWriter, request *http.Request)
 			return
 		}
 	}
-	data, err := readAll(request.Body, request.ContentLength)
+	data, err := readAll(io.LimitReader(request.Body, int64(h.Service.MaxRequestLength)+1), request.ContentLength)
 	if err != nil {
 		h.onError(response, request, err)
 	}
 	if err = request.Body.Close(); err != nil {
 		h.onError(response, request, err)
+	}
+	if len(data) > h.Service.MaxRequestLength {
+		response.WriteHeader(http.StatusRequestEntityTooLarge)
+		return
 	}
 	serviceContext := h.getServiceContext(response, request)
 	ctx := core.WithContext(request.Context(), serviceContext)
@@ -284,6 +289,10 @@ func (h *Handler) ServeFastHTTP(ctx *fasthttp.RequestCtx) {
 	}
 	serviceContext := h.getFastHTTPServiceContext(ctx)
 	body := ctx.Request.Body()
+	if len(body) > h.Service.MaxRequestLength {
+		ctx.SetStatusCode(fasthttp.StatusRequestEntityTooLarge)
+		return
+	}
 	request := make([]byte, len(body))
 	copy(request, body)
 	result, err := h.Service.Handle(core.WithContext(context.Background(), serviceContext), request)
